@@ -393,7 +393,7 @@ func c02Part(t *testing.T, name string, mk func(e explore.Env) ([]c02Config, str
 	}
 }
 
-var c02Fates = []sim.Fate{sim.Drop, sim.Dup, sim.Delay, sim.DelayLong, sim.Flip0, sim.Flip7, sim.FlipMid, sim.FlipLast, sim.Trunc1, sim.Trunc20, sim.TruncLast}
+var c02Fates = []sim.Fate{sim.Drop, sim.Dup, sim.Delay, sim.DelayLong, sim.Flip0, sim.Flip7, sim.FlipMid, sim.FlipLast, sim.Trunc1, sim.Trunc20, sim.TruncLast, sim.FlipSCID}
 
 func c02SpecBases() []int {
 	var l []int
